@@ -1,10 +1,12 @@
 import P2.Driver.Json
+import P2.Driver.Lang
 /-! Line-protocol driver of the model: one request per line on stdin, one response per line on stdout. -/
 open P2.Driver
 
 def handle (line : String) : String :=
   match splitTab line with
   | "JSON" :: args => handleJson args
+  | "EVAL" :: args => handleEval args
   | "PING" :: _ => "PONG"
   | _ => "BADREQ"
 
